@@ -776,7 +776,7 @@ func main() {
 		JudgeCfg:    "FramingTraceX.cfg",
 		SelfTest:    selfTest,
 		NonTrivial:  func(t *fw.Trace) bool { return len(t.Events) >= 2 },
-		Rule: "one case per hostile frame class of spec/Framing.tla (type/flag class x length-field truncation x declared-size class {0,small,16MiB,16MiB+1,2^32-1} x body availability x gzip class {ratio~1, small->just-within-limit, bomb 10x limit, corrupt, truncated} x payload class {empty, not JSON, JSON of another shape, well-formed, huge}), concretised with seeded filler, plus seeded random byte strings and single-bit mutants of valid packets; each fed to the real ReadPacket and, when it decodes, to the real SessionManager.HandlePacket on a fresh connection; non-trivial = ReadPacket was reached",
+		Rule:        "one case per hostile frame class of spec/Framing.tla (type/flag class x length-field truncation x declared-size class {0,small,16MiB,16MiB+1,2^32-1} x body availability x gzip class {ratio~1, small->just-within-limit, bomb 10x limit, corrupt, truncated} x payload class {empty, not JSON, JSON of another shape, well-formed, huge}), concretised with seeded filler, plus seeded random byte strings and single-bit mutants of valid packets; each fed to the real ReadPacket and, when it decodes, to the real SessionManager.HandlePacket on a fresh connection; non-trivial = ReadPacket was reached",
 		Assumptions: []string{
 			"allocation = runtime.MemStats.TotalAlloc delta around the call (process-wide; one call at a time, GC and background tickers covered by the 1 MiB slack); bound for ReadPacket 6 x 16 MiB + 1 MiB (DESIGN.md Appendix B), for HandlePacket 12 x 16 MiB + 1 MiB (spec/FramingTrace.tla)",
 			"hang = the call has not returned after 40 s (largest legitimate case measured: well under 2 s)",
